@@ -9,6 +9,10 @@ operators are applied to the whole composition and the real intermediate express
 Block k (family fam_k) is then an ordinary single-family case whose input / output are the expressions before / after
 the block, serialised RELATIVE to fam_k (ser.ser_sx_rel: chains of the other family below the outer run become part of
 the field name).  result: {"in":.., "out": last block's out | {"err":..}, "blocks":[{"fam","ops","in","out","oracle"}..]}
+Cases of kind "mapping" (mapping components, also of curve / surface mappings "map_pdim" > dim, of two mappings, and
+under PHYSICAL operators) take the same path, also with a single block: seen from the physical family a mapping
+component M[i] is written as component i of the opaque vector field "M@map" (ser.ser_atom_rel, mapfld), so that the
+Leibniz and chain rules are checked for expressions in the M[i] whatever dx(M[i]) denotes.
 """
 import json
 import random
@@ -22,10 +26,13 @@ def run_case(case):
     import sympy as sp
     from sympy.core.cache import clear_cache
     clear_cache()
-    env = ser.Env(dim=case["dim"])
+    if case.get("map_pdim"):       # curve / surface mappings: pdim > ldim = dim
+        env = ser.Env(dim=case["dim"], map_pdim=case["map_pdim"])
+    else:
+        env = ser.Env(dim=case["dim"])
     if case.get("tensor"):
         return run_tensor(case, env)
-    if len(ser.split_blocks(case["ops"])) > 1:
+    if len(ser.split_blocks(case["ops"])) > 1 or case.get("kind") == "mapping":
         return run_mixed(case, env)
     expr = ser.build_sx(case["tree"], env)
     try:
@@ -78,7 +85,7 @@ def run_mixed(case, env):
     blocks = ser.split_blocks(case["ops"])
     expr = ser.build_sx(case["tree"], env)
     try:
-        out = {"in": ser.ser_sx_rel(expr, blocks[0][0]), "blocks": []}
+        out = {"in": ser.ser_sx_rel(expr, blocks[0][0], True), "blocks": []}
     except ser.Unsupported as e:
         return {"in": case["tree"], "out": {"err": "unsupported-node", "msg": "input: " + str(e)}, "blocks": []}
     ops = ser.dops()
@@ -89,7 +96,7 @@ def run_mixed(case, env):
         start = res
         arg = res
         try:
-            blk["in"] = ser.ser_sx_rel(start, fam)
+            blk["in"] = ser.ser_sx_rel(start, fam, True)
             if ser.other_family_atoms(blk["in"], fam):
                 # e.g. dx(x1*u): the real code treats the other family's coordinates as constants; not modelled
                 blk["out"] = {"err": "unsupported-node", "msg": "other-family coordinate under a derivative"}
@@ -98,10 +105,10 @@ def run_mixed(case, env):
             for lg, i in reversed(bops):
                 arg = res
                 res = ops[bool(lg)][i](res)
-            blk["out"] = ser.ser_sx_rel(res, fam)
+            blk["out"] = ser.ser_sx_rel(res, fam, True)
         except NotImplementedError:
             try:
-                blk["out"] = {"err": "not-implemented", "arg": ser.ser_sx_rel(arg, fam)}
+                blk["out"] = {"err": "not-implemented", "arg": ser.ser_sx_rel(arg, fam, True)}
             except ser.Unsupported:
                 blk["out"] = {"err": "not-implemented", "arg": None}
         except ser.Unsupported as e:
@@ -147,14 +154,31 @@ def run_tensor(case, env):
         arg = sp.Tuple(*entries[0])
     else:
         entries = [[ser.build_sx(e, env) for e in row] for row in t["rows"]]
-        arg = sp.ImmutableDenseMatrix(entries)
+        arg = sp.Matrix(entries) if t["k"] == "mmatrix" else sp.ImmutableDenseMatrix(entries)
     out = {"in": {"k": "mat", "rows": [[ser.ser_sx(e) for e in row] for row in entries]}}
     ops = ser.dops()
     res = arg
+    # every mutable matrix the caller holds (the argument, the intermediate results) with its value at the time it was
+    # given / returned: an operator must not change them afterwards (it returns a value, it does not work in place)
+    held = []
+
+    def hold(m):
+        if isinstance(m, sp.MatrixBase) and not isinstance(m, sp.ImmutableDenseMatrix):
+            try:
+                held.append((m, ser.ser_any(m)))
+            except ser.Unsupported:
+                pass
     try:
+        hold(arg)
         for lg, i in reversed(case["ops"]):
             res = ops[bool(lg)][i](res)
+            hold(res)
         out["out"] = ser.ser_any(res)
+        for k, (m, before) in enumerate(held):
+            if ser.ser_any(m) != before:
+                out["out"] = {"err": "argument-mutated", "msg": "the %s was changed in place by a later operator"
+                              % ("argument" if m is arg else "matrix returned by an earlier operator"), "held": k}
+                return out
     except NotImplementedError:
         out["out"] = {"err": "not-implemented", "arg": None}
         return out
